@@ -33,7 +33,11 @@ def _run(hist):
 
 
 def _canon(res):
-    return json.dumps({k: res.get(k) for k in ("key", "viol", "enabled")}, sort_keys=True, default=repr)
+    # messages may quote scratch paths / uuid temp names: determinism is judged on state key, enabled set and
+    # the signatures of the violations
+    return json.dumps({"key": res.get("key"), "enabled": res.get("enabled"),
+                       "viol": sorted(json.dumps(v.get("sig"), sort_keys=True) for v in res.get("viol") or [])},
+                      sort_keys=True, default=repr)
 
 
 class Stats:
